@@ -2,7 +2,8 @@ SPEC = dict(
     claimed=True,
     title='Sensor smoothing stays within observed readings, converges, ignores failed reads',
     props_file='Props/C08.v', props_mod='Props.C08',
-    proof_files=['Proofs/SensorFloat.v', 'Proofs/Sensor.v', 'Proofs/LeafTie.v', 'Drv/Sensor.v'],
+    props_extra=[('Props/C08Link.v', 'Props.C08Link')],
+    proof_files=['Proofs/SensorFloat.v', 'Proofs/Sensor.v', 'Proofs/SensorLinks.v', 'Proofs/LeafTie.v', 'Drv/Sensor.v'],
     tie_vo=['Proofs/LeafTie.vo'],
     drivers=[dict(name='sensor', drv_mod='Drv.Sensor', drv_file='Drv/Sensor.v', shard=60,
                   args={'quick': ['n=600', 'hostile=60', 'monitor=30'], 'thorough': ['n=6000', 'hostile=600', 'monitor=400']},
@@ -35,12 +36,12 @@ SPEC = dict(
         '(ClassicalDedekindReals.sig_forall_dec, sig_not_dec, Classical_Prop.classic, functional_extensionality_dep) wherever Flocq B2R lemmas are used; '
         'the exact list per theorem is in print_assumptions',
         'hand-written model of sensors/{hwmon,file,cmd}.go GetValue, monitor.go updateSensor and backend.go seeding: agreement with the code observed on the generated cases',
-        'observer contractsb (exact integer arithmetic on Prim2SF mantissa/exponent, units of 2^-1074) states the same inequality as theorem C08_converges (over Flocq B2R); their agreement is by inspection',
+        'observer link (Props/C08Link.v): fz v = R_of v * 2^1074 is proved (C08_fz_is_real_value), the integer contraction check follows from C08_converges (C08_contractsb_model), and C08_no_false_alarm shows the observer can only fail on D20 where implementation and model agree',
     ],
     partial='C08_converges proves the binary64 contraction |x-avg\'| <= (1-1/n)|x-avg| + 2^-50(|avg|+|x|) + 2^-1074 per valid poll for windows '
             '2 <= n < 2^53 inside the guard (window 1: C08_window_one, the average is the reading); it is stated over the real values R_of of the '
-            'floats, and the observer contractsb checks the same inequality in exact integer arithmetic (units of 2^-1074) on every observed poll - '
-            'the equality of the two readings of a float (Flocq B2R vs Prim2SF mantissa/exponent) is by inspection, not proved. C08_converges_ideal is '
+            'floats, and the observer contractsb checks the same inequality in exact integer arithmetic (units of 2^-1074) on every observed poll; '
+            'that the two readings of a float agree is proved in Props/C08Link.v (C08_fz_is_real_value, C08_contractsb_model). C08_converges_ideal is '
             'about the exact-arithmetic idealisation only. Timeouts of command sensors run only in the thorough tier. Parsing is exercised, not modelled.',
     finding_codes={1: 'D20'},
     finding_text={'D20': 'UpdateSimpleMovingAvg leaves the hull of the readings outside the magnitude guard: window 1 with values that are not integers below 2^52 '
